@@ -96,9 +96,14 @@ package cache
 //@ ghost lruVal(ref, string) ref
 //@ ghost lruLen(ref) int
 //@ ghost lruCap(ref) int
+//@ ghost lruAge(ref, string) int
 //@ assume github.com/hashicorp/golang-lru/v2.(*Cache).Add
-//@   ghostupdate lruHas(c), lruVal(c), lruLen(c) :: lruHas(c, p0) && toInt(lruVal(c, p0)) == toInt(p1) && (forall k string :: k != p0 ==> (lruHas(c, k) ==> old(lruHas(c, k))) && toInt(lruVal(c, k)) == toInt(old(lruVal(c, k)))) && ((old(lruHas(c, p0)) || old(lruLen(c)) < lruCap(c)) ==> (forall k string :: k != p0 ==> lruHas(c, k) == old(lruHas(c, k))) && lruLen(c) == old(lruLen(c)) + ite(old(lruHas(c, p0)), 0, 1)) && lruLen(c) <= lruCap(c)
+//@   ghostupdate lruHas(c), lruVal(c), lruLen(c), lruAge(c) :: lruHas(c, p0) && toInt(lruVal(c, p0)) == toInt(p1) && (forall k string :: k != p0 ==> (lruHas(c, k) ==> old(lruHas(c, k))) && toInt(lruVal(c, k)) == toInt(old(lruVal(c, k)))) && ((old(lruHas(c, p0)) || old(lruLen(c)) < lruCap(c)) ==> (forall k string :: k != p0 ==> lruHas(c, k) == old(lruHas(c, k))) && lruLen(c) == old(lruLen(c)) + ite(old(lruHas(c, p0)), 0, 1)) && lruLen(c) <= lruCap(c) && lruAge(c, p0) == lruLen(c) - 1
+// Get counts as use: the entry becomes the newest. Peek reads without touching recency.
 //@ assume github.com/hashicorp/golang-lru/v2.(*Cache).Get
+//@   ensures result1 == lruHas(c, p0) && (result1 ==> toInt(result0) == toInt(lruVal(c, p0)))
+//@   ghostupdate lruAge(c) :: result1 ==> lruAge(c, p0) == lruLen(c) - 1
+//@ assume github.com/hashicorp/golang-lru/v2.(*Cache).Peek
 //@   ensures result1 == lruHas(c, p0) && (result1 ==> toInt(result0) == toInt(lruVal(c, p0)))
 // droppedSet: IDs added to the filter and still within its promise (no queue overflow, not yet rotated out)
 //@ ghost droppedSet(ref, string) bool
@@ -139,11 +144,12 @@ package cache
 //@   domain[no-hash-collision] in(c.keptReasons.keys, reasonHash(c.keptReasons, reason)) ==> c.keptReasons.data[toInt(c.keptReasons.keys[reasonHash(c.keptReasons, reason)]) - 1] == reason
 //@   let id = asPtr(trace, *types.Trace).TraceID
 //@   ensures[kept-is-remembered] keep ==> lruHas(c.kept, id) && isFresh(lruVal(c.kept, id))
+//@   ensures[recording-makes-it-the-newest] keep ==> lruAge(c.kept, id) == lruLen(c.kept) - 1
 //@   ensures[kept-rate] keep ==> toInt(asPtr(lruVal(c.kept, id), *keptTraceCacheEntry).rate) == toInt(asPtr(trace, *types.Trace).sampleRate) % 4294967296
 //@   ensures[kept-reason] keep && len(c.keptReasons.data) < 1<<31 ==> 1 <= asPtr(lruVal(c.kept, id), *keptTraceCacheEntry).reason && toInt(asPtr(lruVal(c.kept, id), *keptTraceCacheEntry).reason) <= len(c.keptReasons.data) && c.keptReasons.data[toInt(asPtr(lruVal(c.kept, id), *keptTraceCacheEntry).reason) - 1] == reason
 //@   ensures[dropped-is-remembered] !keep ==> droppedSet(c.dropped, id)
 //@   ensures[dropped-decisions-are-never-forgotten-by-record] forall k string :: old(droppedSet(c.dropped, k)) ==> droppedSet(c.dropped, k)
-//@   modifies c.keptReasons.data, c.keptReasons.keys, c.keptReasons.mu, asPtr(trace, *types.Trace).keptReason, all(lruHas), all(lruVal), all(lruLen), all(droppedSet), c.recentDroppedIDs.Items
+//@   modifies c.keptReasons.data, c.keptReasons.keys, c.keptReasons.mu, asPtr(trace, *types.Trace).keptReason, all(lruHas), all(lruVal), all(lruLen), all(lruAge), all(droppedSet), c.recentDroppedIDs.Items
 
 //@ contract collect/cache.(*cuckooSentCache).CheckTrace props C31
 //@   arith math
@@ -153,7 +159,7 @@ package cache
 //@   ensures[nothing-remembered-means-not-found] !result2 ==> !lruHas(c.kept, traceID) && !droppedSet(c.dropped, traceID)
 //@   ensures[kept-record-is-the-stored-one] result2 && !isType(result0, *cuckooDroppedRecord) ==> lruHas(c.kept, traceID) && toInt(result0) == toInt(lruVal(c.kept, traceID))
 //@   ensures[kept-reason-is-the-interned-one] result2 && !isType(result0, *cuckooDroppedRecord) && 1 <= asPtr(lruVal(c.kept, traceID), *keptTraceCacheEntry).reason && toInt(asPtr(lruVal(c.kept, traceID), *keptTraceCacheEntry).reason) <= len(c.keptReasons.data) ==> result1 == c.keptReasons.data[toInt(asPtr(lruVal(c.kept, traceID), *keptTraceCacheEntry).reason) - 1]
-//@   modifies c.keptReasons.mu
+//@   modifies c.keptReasons.mu, all(lruAge)
 
 // CheckSpan is CheckTrace plus a short-lived memo of recently seen dropped IDs and the span count of kept entries.
 //@ assume collect/cache.(*keptTraceCacheEntry).Count
@@ -167,14 +173,14 @@ package cache
 //@   ensures[nothing-remembered-means-not-found] !result2 ==> !lruHas(c.kept, id) && !droppedSet(c.dropped, id)
 //@   ensures[kept-is-found] lruHas(c.kept, id) ==> result2
 //@   ensures[kept-record-is-the-stored-one] result2 && !isType(result0, *cuckooDroppedRecord) ==> lruHas(c.kept, id) && toInt(result0) == toInt(lruVal(c.kept, id))
+//@   ensures[consulting-makes-it-the-newest] result2 && !isType(result0, *cuckooDroppedRecord) ==> lruAge(c.kept, id) == lruLen(c.kept) - 1
 //@   ensures[kept-reason-is-the-interned-one] result2 && !isType(result0, *cuckooDroppedRecord) && 1 <= asPtr(lruVal(c.kept, id), *keptTraceCacheEntry).reason && toInt(asPtr(lruVal(c.kept, id), *keptTraceCacheEntry).reason) <= len(c.keptReasons.data) ==> result1 == c.keptReasons.data[toInt(asPtr(lruVal(c.kept, id), *keptTraceCacheEntry).reason) - 1]
 //@   ensures[remembered-decisions-stay] (forall k string :: lruHas(c.kept, k) == old(lruHas(c.kept, k)) && toInt(lruVal(c.kept, k)) == toInt(old(lruVal(c.kept, k)))) && (forall k string :: droppedSet(c.dropped, k) == old(droppedSet(c.dropped, k)))
-//@   modifies c.keptReasons.mu, c.recentDroppedIDs.Items, span.annotationType, field(keptTraceCacheEntry, eventCount), field(keptTraceCacheEntry, spanEventCount), field(keptTraceCacheEntry, spanLinkCount), field(keptTraceCacheEntry, spanCount)
+//@   modifies c.keptReasons.mu, c.recentDroppedIDs.Items, all(lruAge), span.annotationType, field(keptTraceCacheEntry, eventCount), field(keptTraceCacheEntry, spanEventCount), field(keptTraceCacheEntry, spanLinkCount), field(keptTraceCacheEntry, spanCount)
 
 // Resize: the new kept-decision LRU holds exactly the newest entries of the old one, up to the new
 // capacity, with their records; nothing is invented. (Which entries are "newest" is the order of the
 // library's Keys(): oldest first - assumed.)
-//@ ghost lruAge(ref, string) int
 //@ assume github.com/hashicorp/golang-lru/v2.New
 //@   ensures size > 0 ==> result1 == nil
 //@   ensures result1 == nil ==> result0 != nil && isFresh(result0) && (forall k string :: !lruHas(result0, k)) && lruLen(result0) == 0 && lruCap(result0) == size
@@ -190,14 +196,14 @@ package cache
 //@   let n = lruLen(c.kept)
 //@   let size = toInt(cfg.GetKeptSizePerWorker())
 //@   domain[capacity-is-positive] 0 < size && size < 1<<31
-//@   ensures[newest-survive-with-their-records] result == nil ==> (forall k string :: lruHas(old0, k) && lruAge(old0, k) >= n - size ==> lruHas(c.kept, k) && toInt(lruVal(c.kept, k)) == toInt(lruVal(old0, k)))
-//@   ensures[nothing-invented] result == nil ==> (forall k string :: lruHas(c.kept, k) ==> lruHas(old0, k) && toInt(lruVal(c.kept, k)) == toInt(lruVal(old0, k)) && lruAge(old0, k) >= n - size)
+//@   ensures[newest-survive-with-their-records] result == nil ==> (forall k string :: lruHas(old0, k) && old(lruAge(old0, k)) >= n - size ==> lruHas(c.kept, k) && toInt(lruVal(c.kept, k)) == toInt(lruVal(old0, k)))
+//@   ensures[nothing-invented] result == nil ==> (forall k string :: lruHas(c.kept, k) ==> lruHas(old0, k) && toInt(lruVal(c.kept, k)) == toInt(lruVal(old0, k)) && old(lruAge(old0, k)) >= n - size)
 //@   loop 1 invariant[same-caches] c != nil && toInt(c.kept) == toInt(old0) && stc != nil && toInt(stc) != toInt(old0) && n == lruLen(old0)
 //@   loop 1 invariant[suffix-size] len(keys) <= size && len(keys) <= n && (len(keys) == n || len(keys) == size)
-//@   loop 1 invariant[suffix-ages] forall j int :: 0 <= j && j < len(keys) ==> lruHas(old0, keys[j]) && lruAge(old0, keys[j]) == n - len(keys) + j
-//@   loop 1 invariant[suffix-complete] forall k string :: lruHas(old0, k) && lruAge(old0, k) >= n - len(keys) ==> lruAge(old0, k) < n && keys[lruAge(old0, k) - (n - len(keys))] == k
+//@   loop 1 invariant[suffix-ages] forall j int :: 0 <= j && j < len(keys) ==> lruHas(old0, keys[j]) && old(lruAge(old0, keys[j])) == n - len(keys) + j
+//@   loop 1 invariant[suffix-complete] forall k string :: lruHas(old0, k) && old(lruAge(old0, k)) >= n - len(keys) ==> old(lruAge(old0, k)) < n && keys[old(lruAge(old0, k)) - (n - len(keys))] == k
 //@   loop 1 invariant[room-left] lruLen(stc) <= iter && lruCap(stc) == size
 //@   loop 1 invariant[copied-so-far] forall j int :: 0 <= j && j < iter ==> lruHas(stc, keys[j]) && toInt(lruVal(stc, keys[j])) == toInt(lruVal(old0, keys[j]))
-//@   loop 1 invariant[nothing-invented] forall k string :: lruHas(stc, k) ==> lruHas(old0, k) && toInt(lruVal(stc, k)) == toInt(lruVal(old0, k)) && lruAge(old0, k) >= n - size
-//@   loop 1 invariant[old-untouched] forall k string :: lruHas(old0, k) == old(lruHas(old0, k)) && toInt(lruVal(old0, k)) == toInt(old(lruVal(old0, k))) && lruAge(old0, k) == old(lruAge(old0, k))
-//@   modifies c.kept, all(lruHas), all(lruVal), all(lruLen), all(sentN)
+//@   loop 1 invariant[nothing-invented] forall k string :: lruHas(stc, k) ==> lruHas(old0, k) && toInt(lruVal(stc, k)) == toInt(lruVal(old0, k)) && old(lruAge(old0, k)) >= n - size
+//@   loop 1 invariant[old-untouched] forall k string :: lruHas(old0, k) == old(lruHas(old0, k)) && toInt(lruVal(old0, k)) == toInt(old(lruVal(old0, k)))
+//@   modifies c.kept, all(lruHas), all(lruVal), all(lruLen), all(lruAge), all(sentN)
